@@ -14,6 +14,7 @@ def instances(tier):
         yield 'inc5', dict(BASE, max_len=5, emit_inv='EmitInc'), 'AlphaC02inc', None
         yield 'top3', dict(BASE, addr_bits=5, max_len=3), 'AlphaC02top', None
         yield 'redefined-global-origin6', dict(BASE, addr_bits=5, max_len=2, origin=6, pre_zones_op='ZonesB', pre_zones=[('GLOBAL', 4, 15), ('z1', 6, 9), ('z2', 14, 17)]), 'AlphaC02core', None
+        yield 'files3', dict(BASE, max_len=15, win_end=24, blocks_op='BlocksScope', emit_inv='EmitInc'), 'MCNoAlphabet', None
         yield 'top-sim6', dict(BASE, addr_bits=5, max_len=6), 'AlphaC02top', 'num=1500'
         yield 'wide-sim8', dict(BASE, max_len=8), 'AlphaC02wide', 'num=1500'
     else:
@@ -23,6 +24,7 @@ def instances(tier):
         yield 'inc6', dict(BASE, max_len=6, emit_inv='EmitInc'), 'AlphaC02inc', None
         yield 'top5', dict(BASE, addr_bits=5, max_len=5), 'AlphaC02top', None
         yield 'redefined-global-origin6', dict(BASE, addr_bits=5, max_len=4, origin=6, pre_zones_op='ZonesB', pre_zones=[('GLOBAL', 4, 15), ('z1', 6, 9), ('z2', 14, 17)]), 'AlphaC02core', None
+        yield 'files4', dict(BASE, max_len=20, win_end=30, blocks_op='BlocksScope', emit_inv='EmitInc'), 'MCNoAlphabet', None
         yield 'wide-sim10', dict(BASE, max_len=10), 'AlphaC02wide', 'num=30000'
 
 
